@@ -125,8 +125,12 @@ func jstr(s string) string {
 }
 
 // the value of a well-formed record, in one of several spellings encoding/json accepts
-func rawRecord(r *sx.Rng, p pair, pl []byte, ack bool) []byte {
-	switch r.Intn(10) {
+func rawRecord(r *sx.Rng, p pair, pl []byte, ack bool, small bool) []byte {
+	v := r.Intn(10)
+	if small {
+		v = 1
+	}
+	switch v {
 	case 0: // other field order, extra fields, whitespace
 		return []byte(`{ "ack":` + map[bool]string{true: "true", false: "false"}[ack] + `, "extra":[1,{"a":null}], "message" : {"payload":"` +
 			base64.StdEncoding.EncodeToString(pl) + `","key":` + jstr(p.k) + `,"x":1,"messagetype":` + jstr(p.t) + `}}`)
@@ -149,7 +153,7 @@ func rawRecord(r *sx.Rng, p pair, pl []byte, ack bool) []byte {
 }
 
 func garbage(r *sx.Rng, p pair) []byte {
-	good := rawRecord(r, p, []byte("xy"), false)
+	good := rawRecord(r, p, []byte("xy"), false, false)
 	switch r.Intn(14) {
 	case 0:
 		return good[:r.Intn(len(good))] // truncated JSON
@@ -187,7 +191,7 @@ func garbage(r *sx.Rng, p pair) []byte {
 	}
 }
 
-func genRecv(r *sx.Rng) sx.Tree {
+func genRecv(r *sx.Rng, small bool) sx.Tree {
 	np := sx.Pick(r, 1, 1, 1, 2, 2, 2, 3, 3)
 	pids := []int64{}
 	for i := 0; i < np; i++ {
@@ -212,9 +216,17 @@ func genRecv(r *sx.Rng) sx.Tree {
 		}
 		wms = append(wms, sx.Ints(ok, low, low+span))
 	}
-	pool := pairPool(r, int(r.Range(1, 6)), true)
+	npool := int(r.Range(1, 6))
+	if small {
+		npool = int(r.Range(1, 2))
+	}
+	pool := pairPool(r, npool, true)
 	ops := []sx.Tree{}
 	part := func() int64 { return pids[r.Intn(len(pids))] }
+	plmax := 24
+	if small {
+		plmax = 2
+	}
 	records := func(n int) {
 		for i := 0; i < n; i++ {
 			p := pool[r.Intn(len(pool))]
@@ -224,13 +236,16 @@ func genRecv(r *sx.Rng) sx.Tree {
 			case r.Chance(4):
 				ops = append(ops, sx.T(sx.L(sx.Pick(r, int64(2), int64(3)))))
 			default:
-				ops = append(ops, sx.T(sx.L(0), sx.L(part()), sx.Bytes(rawRecord(r, p, payload(r, 24), r.Chance(30)))))
+				ops = append(ops, sx.T(sx.L(0), sx.L(part()), sx.Bytes(rawRecord(r, p, payload(r, plmax), r.Chance(30), small))))
 			}
 		}
 	}
 	budget := int(r.Range(0, 60))
 	if r.Chance(10) {
 		budget = int(r.Range(60, 80))
+	}
+	if small {
+		budget = int(r.Range(0, 8))
 	}
 	// catching up: records interleaved with end-of-partition signals that do not yet cover every partition
 	order := append([]int64{}, pids...)
@@ -290,7 +305,11 @@ func genRecv(r *sx.Rng) sx.Tree {
 
 // ------------------------------------------------------------------ kind 11
 
-func genRoute(r *sx.Rng) sx.Tree {
+func genRoute(r *sx.Rng, small bool) sx.Tree {
+	maxNodes := 18
+	if small {
+		maxNodes = 5
+	}
 	ntypes := int(r.Range(1, 5))
 	types := []string{}
 	for i := 0; i < ntypes; i++ {
@@ -335,9 +354,9 @@ func genRoute(r *sx.Rng) sx.Tree {
 			h = sx.T(party())
 		}
 		kids := []sx.Tree{}
-		if depth < 4 && total < 18 {
+		if depth < 4 && total < maxNodes {
 			nk := sx.Pick(r, 0, 0, 1, 1, 2, 3)
-			for i := 0; i < nk && total < 18; i++ {
+			for i := 0; i < nk && total < maxNodes; i++ {
 				kids = append(kids, mk(depth+1))
 			}
 		}
@@ -345,7 +364,7 @@ func genRoute(r *sx.Rng) sx.Tree {
 	}
 	src := party()
 	roots := []sx.Tree{}
-	for i := sx.Pick(r, 0, 1, 1, 2, 2, 3); i > 0; i-- {
+	for i := sx.Pick(r, 0, 1, 1, 2, 2, 3); i > 0 && total < maxNodes; i-- {
 		roots = append(roots, mk(1))
 	}
 	msgs := []sx.Tree{}
@@ -361,7 +380,7 @@ func genRoute(r *sx.Rng) sx.Tree {
 
 // ------------------------------------------------------------------ kind 12
 
-func genSend(r *sx.Rng) sx.Tree {
+func genSend(r *sx.Rng, small bool) sx.Tree {
 	ns := sx.Pick(r, 1, 1, 2, 3)
 	topics := []int64{}
 	for i := 0; i < ns; i++ {
@@ -374,7 +393,11 @@ func genSend(r *sx.Rng) sx.Tree {
 	pool := pairPool(r, int(r.Range(1, 6)), false)
 	ops := []sx.Tree{}
 	outside := r.Chance(4)
-	for i := int(r.Range(1, 24)); i > 0; i-- {
+	nops, plmax := int(r.Range(1, 24)), 256
+	if small {
+		nops, plmax = int(r.Range(1, 4)), 3
+	}
+	for i := nops; i > 0; i-- {
 		p := pool[r.Intn(len(pool))]
 		if outside && r.Chance(15) { // outside C12's quantifier: '-' in the type / a key that is not UTF-8
 			if r.Bool() {
@@ -383,7 +406,7 @@ func genSend(r *sx.Rng) sx.Tree {
 				p.k += "\xff"
 			}
 		}
-		pl := payload(r, 256)
+		pl := payload(r, plmax)
 		nilp := int64(0)
 		if len(pl) == 0 && r.Bool() {
 			nilp = 1
